@@ -144,6 +144,7 @@ def opcodes_allowed_at(A, f, node):
 
 
 TRANSPARENT = '<unchanged>'
+PARAM_VALUE = '<parameter>'
 
 
 def _operand_moveq(A, f, call, ops):
@@ -181,6 +182,11 @@ def _values_of(A, f, node, expr):
             out.append((vv.member, both, d.ast))
         if out:
             return out
+        if expr.id in f.params:
+            # handed in by the caller (the loop code generators): some
+            # Operand, not decided here; R15.f makes sure no action
+            # instruction depends on it
+            return [(PARAM_VALUE, base, expr)]
     raise AnalysisError('%s: cannot evaluate operand %s' % (f.short, norm(expr)))
 
 
@@ -207,26 +213,30 @@ def _events_of_node(A, f, n, upto=None):
     return ev
 
 
-def operand_summary(A, f, stack=()):
+def operand_summary(A, f, stack=(), opaque=frozenset()):
     """Possible last values of Register.OPERAND set by f on its success
-    exits (TRANSPARENT = may leave it as it was)."""
-    memo = A._memo.setdefault('operand_summary', {})
+    exits (TRANSPARENT = may leave it as it was). Calls to functions in
+    `opaque` end a path without contributing anything."""
+    memo = A._memo.setdefault(('operand_summary', opaque), {})
     if f in memo:
         return memo[f]
     if f in stack:
         return {(TRANSPARENT, None, None)}
     cfg = A.cfg(f)
     out = set()
+    # a procedure (no return carries a value) has no failing exit
+    procedure = not any(isinstance(n, ast.Return) and n.value is not None
+                        for n in walk_own(f.node))
     for r in cfg.return_nodes():
-        if A.ret_class(f, r)[0] == 'fail':
+        if not procedure and A.ret_class(f, r)[0] == 'fail':
             continue
-        out |= operands_before(A, f, r, None, stack + (f,))
+        out |= operands_before(A, f, r, None, stack + (f,), opaque)
     if not stack:
         memo[f] = out
     return out
 
 
-def operands_before(A, f, node, upto_call, stack=()):
+def operands_before(A, f, node, upto_call, stack=(), opaque=frozenset()):
     """Values Register.OPERAND may hold when `node` (its call `upto_call`, or
     its end if None) executes: backward walk over the CFG of f."""
     out = set()
@@ -247,9 +257,12 @@ def operands_before(A, f, node, upto_call, stack=()):
                              else None, (f, construct)))
                 stopped = True
                 break
+            if opaque and any(callee in opaque for callee in payload):
+                stopped = True      # a nested statement sequence: not ours
+                break
             summ = set()
             for callee in payload:
-                summ |= operand_summary(A, callee, stack)
+                summ |= operand_summary(A, callee, stack, opaque)
             transparent = any(m == TRANSPARENT for m, _a, _c in summ)
             out |= set(x for x in summ if x[0] != TRANSPARENT)
             if not transparent:
@@ -294,7 +307,7 @@ def operand_flows(A):
                 here = opcodes_allowed_at(A, f, n)
                 vals = operands_before(A, f, n, call)
                 for member, allow, where in vals:
-                    if member == TRANSPARENT:
+                    if member in (TRANSPARENT, PARAM_VALUE):
                         continue
                     for k in kinds:
                         if here is not None and k not in here:
